@@ -24,6 +24,11 @@ import (
 // `own` (and, for transactions, the field summary of the value that was serialized) lets the oracle
 // demand that the real reader accepts exactly these bytes and gives the value back.
 func emitOwn(g *hx.Gen, s wire.Sample) {
+	if s.Val != nil {
+		// value-level tie: the digest of a field-by-field dump of the VALUE that was serialized
+		g.Emit("%s %s own v:%s", s.Op, hx.Hex(s.Bytes), wire.ValueDigest(s.Val))
+		return
+	}
 	if s.Want != "" {
 		g.Emit("%s %s own %s", s.Op, hx.Hex(s.Bytes), s.Want)
 	} else {
@@ -91,6 +96,19 @@ func ownOracle(t []string, out string) *hx.Violation {
 	case "dec":
 		if f[2] != hexTok {
 			return &hx.Violation{Kind: "own-bytes-not-roundtrip", Detail: "Serialize(Deserialize(Serialize(v))) differs from Serialize(v)"}
+		}
+		if oi+1 < len(t) && strings.HasPrefix(t[oi+1], "v:") {
+			pv := byte(0)
+			for _, c := range t[2] {
+				pv = pv*10 + byte(c-'0')
+			}
+			got, err := wire.DecodeValue(t[1], pv, hx.UnHex(hexTok))
+			if err != nil {
+				return &hx.Violation{Kind: "own-bytes-rejected", Detail: err.Error()}
+			}
+			if d := wire.ValueDigest(got); "v:"+d != t[oi+1] {
+				return &hx.Violation{Kind: "own-value-changed", Detail: "Deserialize(Serialize(v)) is a different value than v (field dump digest " + d + " vs " + t[oi+1][2:] + ")"}
+			}
 		}
 	case "tx":
 		if f[len(f)-2] != hexTok {
